@@ -88,7 +88,7 @@ def run(ctx):
 def _writer_site(ctx, m, modname, gates):
     F = 'hszinc/%s.py' % modname
     try:
-        fn = m.func(modname, 'dump_scalar')
+        fn = m.func(modname, 'dump_scalar', 'nested')
     except AnalysisError as e:
         ctx.error('C10.D1', str(e))
         return
@@ -142,7 +142,7 @@ def _writer_site(ctx, m, modname, gates):
 def _json_reader(ctx, m, gates):
     F = 'hszinc/jsonparser.py'
     try:
-        fn = m.func('jsonparser', 'parse_embedded_scalar')
+        fn = m.func('jsonparser', 'parse_embedded_scalar', 'flat')
     except AnalysisError as e:
         ctx.error('C10.D1', str(e))
         return
@@ -225,7 +225,7 @@ def _grid_site(ctx, m, gates):
                           line=fn.lineno, engine='E1')
     # D4 logic
     try:
-        av = m.func('grid', 'Grid._assert_version')
+        av = m.func('grid', 'Grid._assert_version', 'nested')
     except AnalysisError as e:
         ctx.error('C10.D4', str(e))
         return
